@@ -28,3 +28,4 @@ let run inp obs : string option * string option =
     if kind = "released" then (None, None)
     else (Some (Printf.sprintf "client cancelled (%s, %s, handler waiting on %s) but the handler was not released: %s" front shape point kind), None)
   | _ -> (Some "unparsable C15 case", None)
+let () = Evalreg.register "C15" run
